@@ -175,4 +175,9 @@ def Repo.upstream (s : Repo) (hasDefault : Bool) (q : ReqView) (rawQuery : Strin
     | _, _ => none
   | _ => none
 
+/-- the request target the proxy service writes into the request line of the request it sends upstream
+(`requestContext.Finalize` → `rewriteRequest`: the URL of the outgoing request is the URL the rule returned) -/
+def Repo.sent (s : Repo) (hasDefault : Bool) (q : ReqView) (rawQuery : String) : Option String :=
+  (s.upstream hasDefault q rawQuery).bind fun u => if transportSpeaks u.scheme then some (requestTarget u) else none
+
 end Heimdall
